@@ -310,7 +310,29 @@ def gen_reqs(inp, n, opq0, width=32):
   return out
 
 
+def pool_values(R, reqs_per_port, widths):
+  """a few data values shared by full-word writes and AMO operands on a few word-aligned hot addresses (all
+  ports), so that an AMO operand regularly EQUALS the word it meets in memory (x ^ x, min(x, x), swap(x, x)...)"""
+  p = R("pool")
+  if p.random() < 0.5:
+    return
+  pool = [p.getrandbits(32) | 1 for _ in range(p.randint(1, 3))]
+  hot = [0, 4, 8]
+  for reqs, w in zip(reqs_per_port, widths):
+    if w != 32:
+      continue
+    for q in reqs:
+      if (q[0] == MM.WRITE or q[0] in MM.AMOS) and p.random() < 0.45:
+        q[1], q[2], q[3] = p.choice(hot), 0, p.choice(pool)
+
+
 def gen_case(R, tier):
+  case = _gen_case(R, tier)
+  pool_values(R, case["reqs"], case.get("widths") or [32] * len(case["reqs"]))
+  return case
+
+
+def _gen_case(R, tier):
   c = R("case")
   inp = R("input")
   flt = R("fault")
